@@ -134,6 +134,21 @@ impl Writer {
         }
     }
 
+    // add a float to the output that must remain recognizable as a float.
+    // A2L parameters have a fixed type, so "1" is as good as "1.0" there. The items of IF_DATA have the
+    // type that their text suggests (unless an A2ML definition says otherwise), so a float is always
+    // written with a decimal point or an exponent
+    pub(crate) fn add_float_ifdata<T>(&mut self, value: T, offset: u32)
+    where
+        T: std::convert::Into<f64>,
+    {
+        let startpos = self.outstring.len();
+        self.add_float(value, offset);
+        if !self.outstring[startpos..].contains(['.', 'e', 'E', 'n', 'N']) {
+            self.outstring.push_str(".0");
+        }
+    }
+
     pub(crate) fn add_group(&mut self, mut group: Vec<TaggedItemInfo>) {
         // intially sort the group items by their id / name / etc
         group.sort_by(Self::sort_function);
